@@ -127,5 +127,10 @@ def boot_pygaps():
     import numpy
     numpy.seterr(all="ignore")
     sqlseam.reset()
+    # everything alive now is permanent (modules, registries): keep it out of later garbage collections, so that the
+    # deterministic gc.collect() sessions perform after a failed operation costs microseconds, not tens of milliseconds
+    import gc
+    gc.collect()
+    gc.freeze()
     _booted = True
     return pygaps
